@@ -112,7 +112,7 @@ var errFn = errors.New("verif: function error")
 type panicVal struct{ s string }
 
 func NewSession(path string, o Opts, prof Profile, t *Tracer) *Session {
-	return &Session{Path: path, Opts: o, Prof: prof, T: t, txs: map[int]*txh{}, curs: map[int]*curh{}, Deadline: 30 * time.Second}
+	return &Session{Path: path, Opts: o, Prof: prof, T: t, txs: map[int]*txh{}, curs: map[int]*curh{}, Deadline: 60 * time.Second}
 }
 
 // guard runs fn under a watchdog: a step that does not return is a termination failure
